@@ -42,13 +42,14 @@ import (
 func init() { families["prefix"] = runPrefix }
 
 type pfxGeom struct {
-	pool string
-	page int
-	g    geom
+	pool     string
+	page     int
+	g        geom
+	pageText string // how the allocation length is written in the configuration ("" = drawn: "64" or "064")
 }
 
 func mkPfxGeom(pool string, page int) pfxGeom {
-	return pfxGeom{pool, page, geomV6(pool, page)}
+	return pfxGeom{pool: pool, page: page, g: geomV6(pool, page)}
 }
 
 type pfxHeld struct {
@@ -89,16 +90,22 @@ func duidFor(c int, r *rand.Rand) dhcpv6.DUID {
 }
 
 func newPfxScn(t *Trace, pg pfxGeom, r *rand.Rand) (*pfxScn, error) {
-	pageText := strconv.Itoa(pg.page)
-	if r.Intn(4) == 0 {
-		pageText = "0" + pageText // a decimal number is a decimal number, leading zero or not
+	pageText := pg.pageText
+	if pageText == "" {
+		pageText = strconv.Itoa(pg.page)
+		if r.Intn(4) == 0 {
+			pageText = "0" + pageText // a decimal number is a decimal number, leading zero or not
+		}
 	}
 	h, err := prefix.Plugin.Setup6(pg.pool, pageText)
-	t.Emit(Ev{"ev": "reset", "N": pg.g.n, "page": pg.page, "pool": pg.pool})
+	t.Emit(Ev{"ev": "reset", "N": pg.g.n, "page": pg.page, "pool": pg.pool, "pagetext": pageText})
+	s := &pfxScn{t: t, pg: pg, h: h, r: r, told: map[int][]pfxHeld{}, owner: map[int]int{}, duids: map[int]dhcpv6.DUID{}}
 	if err != nil || h == nil {
-		return nil, fmt.Errorf("Setup6(%s,%d): %v", pg.pool, pg.page, err)
+		// a valid configuration was refused: an observation no action of the specification explains
+		t.Emit(Ev{"ev": "setupfail", "pool": pg.pool, "pagetext": pageText, "msg": fmt.Sprint(err)})
+		s.dead = true
 	}
-	return &pfxScn{t: t, pg: pg, h: h, r: r, told: map[int][]pfxHeld{}, owner: map[int]int{}, duids: map[int]dhcpv6.DUID{}}, nil
+	return s, nil
 }
 
 // clients 100+b are SIBLINGS of client b: a different client identifier built on the same hardware address (another
@@ -796,6 +803,9 @@ func runPrefixReplay(t *Trace, path string) error {
 		switch e["ev"] {
 		case "reset":
 			pg := mkPfxGeom(toStr(e["pool"]), toInt(e["page"]))
+			if pt, ok := e["pagetext"].(string); ok {
+				pg.pageText = pt
+			}
 			s, err = newPfxScn(t, pg, rand.New(rand.NewSource(1)))
 			if err != nil {
 				return err
